@@ -144,6 +144,10 @@ func verifObserve(key string, v any)
 func verifFail(label string)
 func verifDaemon()
 func verifNumGoroutinesBlocked() int
+func verifEncode(v any, n int) []byte
+func verifEventCount(kind string) int
+func verifEvent(kind string)
+func verifQuiesce()
 `
 
 func pkgNameOf(src []byte) string {
